@@ -119,15 +119,33 @@ def check_uncompute(ctx: Ctx, replay_rule: bool = True):
     fi = ctx.repo.func(f"{QE}.uncompute")
     loop = _gate_loop(fi)
     binds = single_bindings(fi)
-    core, par = q.reversal_parity(loop.iter, binds)
-    ctx.check(norm(core) == "self.gates_computed" and par == 1, "MP-reverse", fi, "replay in reverse order", "for ... in reversed(self.gates_computed)", f"iterates `{norm(loop.iter)}` (source `{norm(core)}`, {par} reversal(s)): the inverse of a gate product is the reversed product", loop)
+    core, par, src_filters = q.seq_source(loop.iter, binds)
+    if isinstance(core, ast.Subscript) and isinstance(core.slice, ast.Slice) and norm(q.seq_source(core.value, binds)[0]) == "self.gates_computed":
+        ctx.check(False, "MP-reverse", fi, "replay walks every recorded gate", "", f"iterates `{norm(loop.iter)}`: only the part `{norm(core)}` of the recorded gates is walked, a marked qubit computed by an earlier gate is released without being reset", loop)
+    elif norm(core) != "self.gates_computed":
+        ctx.undecided(fi.short, f"the replay loop iterates `{norm(loop.iter)}`, whose elements come from `{norm(core)[:60]}`, not (visibly) from self.gates_computed")
+    else:
+        ctx.check(par == 1, "MP-reverse", fi, "replay in reverse order", "for ... in reversed(self.gates_computed)", f"iterates `{norm(loop.iter)}` (source `{norm(core)}`, {par} reversal(s)): the inverse of a gate product is the reversed product", loop)
     g, ws, p = (norm(e) for e in loop.target.elts)
+    # a filter applied where the replay list is built guards the replay like an `if` in the loop would
+    pre_facts = []
+    for t_, tgt_ in src_filters:
+        if isinstance(tgt_, ast.Tuple) and len(tgt_.elts) == 3:
+            ren = {norm(a): b for a, b in zip(tgt_.elts, (g, ws, p))}
+
+            class _Rn(ast.NodeTransformer):
+                def visit_Name(self, n):
+                    return ast.copy_location(ast.Name(id=ren.get(n.id, n.id), ctx=n.ctx), n)
+
+            import copy as _copy
+
+            pre_facts.append((norm(_Rn().visit(_copy.deepcopy(t_))), True))
     apps = [c for c in q.calls(loop) if dotted(c.func) == "self.append"]
     ba = q.bound_args(ctx.repo, apps[0], ("gate", "qubits", "param")) if len(apps) == 1 else None
     ok = ba is not None and [norm(a) if a is not None else None for a in ba] == [g, ws, p]
     ctx.check(ok, "MP-reverse", fi, "same gate, same wires, same parameter", "", "the replayed gate is not the recorded gate on the recorded wires", apps[0] if apps else loop)
     if apps:
-        facts = [(norm(e), pol) for e, pol in guard_facts(fi, apps[0], duals=True)]
+        facts = [(norm(e), pol) for e, pol in guard_facts(fi, apps[0], duals=True)] + pre_facts
         marked_facts = [(f, pol) for f, pol in facts if f.endswith(" in self.marked_ancillas") and " not in " not in f]
         if not marked_facts:
             ctx.undecided(fi.short, f"replay iff the target is marked: the replay is not guarded by a membership test in self.marked_ancillas (guards {facts})")
@@ -146,7 +164,26 @@ def check_uncompute(ctx: Ctx, replay_rule: bool = True):
         elt = keep_app[0].args[0] if keep_app[0].args else None
         same_gate = isinstance(elt, ast.Tuple) and [norm(x) for x in elt.elts] == [g, ws, p]
         ctx.check(same_gate, "MP-rebuild", fi, "kept gates are recorded unchanged", "", "the kept gate record differs from the iterated one", keep_app[0])
-    if not keep_app:
+    core2s, par2s, f2 = q.seq_source(st[0].value, binds)
+    if not keep_app and norm(core2s) == "self.gates_computed" and f2:
+        # the kept gates selected by a filter over the recorded list itself
+        tests = []
+        for t_, tgt_ in f2:
+            if isinstance(tgt_, ast.Tuple) and len(tgt_.elts) == 3:
+                ren2 = {norm(a): b for a, b in zip(tgt_.elts, (g, ws, p))}
+
+                class _Rn2(ast.NodeTransformer):
+                    def visit_Name(self, n):
+                        return ast.copy_location(ast.Name(id=ren2.get(n.id, n.id), ctx=n.ctx), n)
+
+                import copy as _copy2
+
+                tests.append(norm(_Rn2().visit(_copy2.deepcopy(t_))))
+        if len(tests) != 1 or "self.marked_ancillas" not in tests[0]:
+            ctx.undecided(fi.short, f"gates_computed is rebuilt by filtering the recorded list with {tests}: outside the tables")
+        else:
+            ctx.check(tests[0] == f"{ws}[-1] not in self.marked_ancillas" and par2s == 0, "MP-rebuild", fi, "gates_computed = gates not replayed, original order", f"filter `{tests[0]}`, {par2s} reversals", f"gates_computed is rebuilt as the recorded gates with `{tests[0]}` ({par2s} reversal(s)): it must hold exactly the non-replayed gates in their original order", st[0])
+    elif not keep_app:
         ctx.undecided(fi.short, f"gates_computed is rebuilt from `{norm(core2)}`, which is not a list appended to in the replay loop: outside the tables")
     else:
         ctx.check(in_else and (par + par2) % 2 == 0, "MP-rebuild", fi, "gates_computed = gates not replayed, original order", f"{par}+{par2} reversals", f"gates_computed is rebuilt from `{norm(core2)}` ({par}+{par2} reversals, kept under {fk if keep_app and apps else '?'}): it must hold exactly the non-replayed gates in their original order (a later uncompute would replay in the wrong order or replay undone gates)", st[0])
@@ -340,8 +377,29 @@ def check_ancilla_api(ctx: Ctx):
     gfa = qe.methods.get("get_free_ancilla")
     if gfa is None:
         raise AnchorError(QE + ".get_free_ancilla", "not found")
-    txt = norm(gfa.node)
-    ctx.check("self.free_ancilla_lst.pop()" in txt and "self.add_ancilla(is_free=False)" in txt, "TS-ANC", gfa, "hands out a free ancilla exactly once", "pop() from the free set, or a new non-free ancilla", "get_free_ancilla neither pops from the free set nor creates a non-free ancilla: the same qubit can be handed out twice", gfa.node)
+    pops = [c for c in q.calls(gfa.node) if dotted(c.func) == "self.free_ancilla_lst.pop"]
+    news = [c for c in q.calls(gfa.node) if dotted(c.func) == "self.add_ancilla"]
+    aa = qe.methods.get("add_ancilla")
+    frees = [c for c in q.calls(gfa.node) if dotted(c.func) in ("self.free_ancilla_lst.add", "self.free_ancilla_lst.update")]
+    inline_new = [c for c in q.calls(gfa.node) if dotted(c.func) == "self.add_qubit"] and [c for c in q.calls(gfa.node) if dotted(c.func) == "self.ancilla_lst.add"]
+    if not pops:
+        reads = [n for n in ast.walk(gfa.node) if isinstance(n, ast.Attribute) and n.attr == "free_ancilla_lst"]
+        if reads and not any(isinstance(c.func, ast.Attribute) and c.func.attr in ("remove", "discard", "difference_update") and "free_ancilla_lst" in norm(c.func.value) for c in q.calls(gfa.node)):
+            ctx.check(False, "TS-ANC", gfa, "hands out a free ancilla exactly once", "", "get_free_ancilla reads the free set but never takes the qubit out of it: the same qubit can be handed out twice", gfa.node)
+        else:
+            ctx.undecided(gfa.short, "get_free_ancilla does not pop() from self.free_ancilla_lst")
+    elif len(news) == 1 and aa is not None:
+        ps_ = q.call_params(aa)
+        ba_ = q.bound_args(ctx.repo, news[0], ps_) if "is_free" in ps_ else None
+        if ba_ is None:
+            ctx.undecided(gfa.short, f"`{norm(news[0])}`: cannot match the arguments with add_ancilla's parameters")
+        else:
+            v_ = ba_[ps_.index("is_free")]
+            ctx.check(isinstance(v_, ast.Constant) and v_.value is False, "TS-ANC", gfa, "hands out a free ancilla exactly once", "pop() from the free set, or a new non-free ancilla", f"`{norm(news[0])}` creates the new ancilla as a FREE one and hands it out: the same qubit is handed out again by the next call", news[0])
+    elif inline_new and not news:
+        ctx.check(not frees, "TS-ANC", gfa, "hands out a free ancilla exactly once", "pop() from the free set, or a new ancilla that is not put in the free set", f"the newly created ancilla is handed out and also put into the free set (`{norm(frees[0]) if frees else ''}`): the next call hands it out again", frees[0] if frees else gfa.node)
+    else:
+        ctx.undecided(gfa.short, "get_free_ancilla creates its new ancilla in a form outside the tables")
     ma = qe.methods.get("mark_ancilla")
     facts_ok = any(isinstance(n, ast.If) and "in self.ancilla_lst" in norm(n.test) for n in walk_no_nested(ma.node))
     ctx.check(facts_ok, "TS-ANC", ma, "only ancillas are marked", "", "mark_ancilla marks non-ancilla qubits: inputs/outputs would be uncomputed", ma.node)
